@@ -11,10 +11,12 @@ ordered map with its closed flag (`hstep`).
 * `validate ops w` is the *verified* part: `w` enumerates all operations exactly once, respects
   real-time order (an operation that returned before another was invoked comes first) and, executed
   sequentially in this order, the specification gives exactly the recorded answers.
-* `search` is a Wing–Gong search with Lowe's memoisation (set of linearised operations × state) and
-  greedy linearisation of matching read-only operations; it only *proposes* a witness.
-* `decide` accepts iff the proposed witness validates.  Soundness (`Hive/Proofs/KVLin.lean`):
-  `decide h = accept → Linearizable h`.
+* `search` is a Wing–Gong search with Lowe's memoisation (set of linearised operations × state); it
+  is a total function (structural recursion on the number of operations still to linearise) and it is
+  the very definition `drv_c05` runs.
+* `decideHist` accepts iff the found witness validates.  Soundness and completeness
+  (`Hive/Proofs/KVLin.lean`, `KVLinComplete.lean`): `decideHist h = accept → Linearizable h`, and
+  `Linearizable h → decideHist h ∈ {accept, reject budget-exhausted}`.
 
 Core Lean + `Std.Data.HashSet` (toolchain), no Mathlib.
 -/
@@ -49,96 +51,93 @@ def realTimeFrom (bound : Nat) : List HOp → Bool
   | [] => true
   | o :: rest => decide (bound ≤ o.ret) && realTimeFrom (max bound (o.inv + 1)) rest
 
-def nodupB : List Nat → Bool
-  | [] => true
-  | x :: xs => !xs.contains x && nodupB xs
-
 def pick (ops : Array HOp) (i : Nat) : HOp := ops.getD i { inv := 0, ret := 0, kind := .close, out := .ok }
 
-/-- The verified witness check. -/
+/-- The verified witness check: `w` enumerates the operations `0 … size-1`, each exactly once; every
+operation was invoked before each later one in `w` returned; executed in this order the contract
+gives the recorded answers. -/
 def validate (ops : Array HOp) (w : List Nat) : Bool :=
-  w.length == ops.size && w.all (fun i => decide (i < ops.size)) && nodupB w &&
-    realTimeFrom 0 (w.map (pick ops)) && runSeq seqInit (w.map (pick ops))
+  w.isPerm (List.range ops.size) && realTimeFrom 0 (w.map (pick ops)) && runSeq seqInit (w.map (pick ops))
 
-/-! ## search (unverified; its result is validated) -/
+/-! ## search: total, and the definition the driver runs is the one the theorems are about -/
 
-def HKind.readOnly : HKind → Bool
-  | .data a => !a.isWrite
-  | .close => false
+/-- The smallest response stamp among the operations still to linearise. -/
+def minRetL (ops : Array HOp) : List Nat → Option Nat
+  | [] => none
+  | i :: rest =>
+    match minRetL ops rest with
+    | none => some (pick ops i).ret
+    | some r => some (min (pick ops i).ret r)
+
+def retLt (ops : Array HOp) (a b : Nat) : Bool := decide ((pick ops a).ret < (pick ops b).ret)
+
+/-- The operations that may be linearised next: those invoked before every operation still to
+linearise returned.  Tried in response order (the effect of a call happens shortly before it
+returns). -/
+def candidates (ops : Array HOp) (todo : List Nat) : List Nat :=
+  match minRetL ops todo with
+  | none => []
+  | some r => sortBy (retLt ops) (todo.filter (fun i => decide ((pick ops i).inv < r)))
+
+inductive SRes
+  | found (w : List Nat)
+  | none
+  | budget
+deriving DecidableEq, Repr
 
 structure SearchSt where
-  memo : Std.HashSet (Nat × SeqSt)
+  memo : Std.HashSet (List Nat × SeqSt)   -- configurations (operations still to linearise, state) without completion
   nodes : Nat
 
-/-- The window of operations that may be linearised next: scanning in invocation order from `lo`,
-stop at the first operation invoked after some not yet linearised operation returned. -/
-partial def window (ops : Array HOp) (done : Nat) (i : Nat) (minRet : Option Nat) (acc : List Nat) :
-    List Nat × Option Nat :=
-  if h : i < ops.size then
-    let o := ops[i]
-    match minRet with
-    | some r =>
-      if o.inv > r then (acc.reverse, minRet)
-      else if done.testBit i then window ops done (i + 1) minRet acc
-      else window ops done (i + 1) (some (min r o.ret)) (i :: acc)
-    | none =>
-      if done.testBit i then window ops done (i + 1) none acc
-      else window ops done (i + 1) (some o.ret) (i :: acc)
-  else (acc.reverse, minRet)
+/-- One candidate `i` of a configuration (`todo`, `st`, order so far `acc`, newest first): if nothing
+has been found yet, the contract gives `i`'s recorded answer in `st`, and the configuration after `i`
+is not known to be hopeless, search it (`rec`), and remember it if that fails. -/
+def tryCand (ops : Array HOp) (rec : List Nat → SeqSt → List Nat → SearchSt → SRes × SearchSt)
+    (todo : List Nat) (st : SeqSt) (acc : List Nat) (p : SRes × SearchSt) (i : Nat) : SRes × SearchSt :=
+  match p.1 with
+  | .none =>
+    if (hstep st (pick ops i).kind).2 == (pick ops i).out then
+      if p.2.memo.contains (todo.erase i, (hstep st (pick ops i).kind).1) then p
+      else
+        match rec (todo.erase i) (hstep st (pick ops i).kind).1 (i :: acc) p.2 with
+        | (.none, ss') => (.none, { ss' with memo := ss'.memo.insert (todo.erase i, (hstep st (pick ops i).kind).1) })
+        | res => res
+    else p
+  | _ => p
 
-partial def skipDone (ops : Array HOp) (done : Nat) (lo : Nat) : Nat :=
-  if lo < ops.size && done.testBit lo then skipDone ops done (lo + 1) else lo
+def overBudget (budget : Option Nat) (nodes : Nat) : Bool :=
+  match budget with
+  | some b => decide (b < nodes)
+  | none => false
 
-/-- Wing–Gong search.  `k` operations are linearised (bit set `done`), `acc` is the order so far
-(newest first).  Fails (`none`) also when the node budget is exhausted. -/
-partial def dfs (ops : Array HOp) (budget : Nat) (lo : Nat) (done : Nat) (k : Nat) (st : SeqSt) (acc : List Nat) :
-    StateM SearchSt (Option (List Nat)) := do
-  if k == ops.size then return some acc.reverse
-  let s ← get
-  if s.nodes > budget then return none
-  set { s with nodes := s.nodes + 1 }
-  let lo := skipDone ops done lo
-  let (win, minRet) := window ops done lo none []
-  let bound := minRet.getD 0
-  -- the effect of a call happens shortly before it returns: try the candidates in response order
-  let cands := ((win.filter (fun i => (pick ops i).inv < bound)).toArray.qsort
-    (fun a b => (pick ops a).ret < (pick ops b).ret)).toList
-  -- greedy: a matching operation that does not change the state can always go first
-  match cands.find? (fun i =>
-      let o := pick ops i
-      (o.kind.readOnly || (st.closed && o.kind != .close)) && (hstep st o.kind).2 == o.out) with
-  | some i => dfs ops budget lo (done ||| (1 <<< i)) (k + 1) st (i :: acc)
-  | none =>
-    for i in cands do
-      let o := pick ops i
-      let r := hstep st o.kind
-      if r.2 == o.out then
-        let done' := done ||| (1 <<< i)
-        let key := (done', r.1)
-        if !(← get).memo.contains key then
-          match ← dfs ops budget lo done' (k + 1) r.1 (i :: acc) with
-          | some w => return some w
-          | none => modify fun s => { s with memo := s.memo.insert key }
-    return none
-
-def sortedByInv : List HOp → Bool
-  | a :: b :: rest => decide (a.inv ≤ b.inv) && sortedByInv (b :: rest)
-  | _ => true
+/-- Wing–Gong search with Lowe's memoisation.  `fuel` = number of operations still to linearise
+(`todo`).  Structural recursion on `fuel`; with `budget = some b` it gives up (`budget`) after `b`
+nodes, with `none` it never gives up. -/
+def search (ops : Array HOp) (budget : Option Nat) : Nat → List Nat → SeqSt → List Nat → SearchSt → SRes × SearchSt
+  | 0, _, _, acc, ss => (.found acc.reverse, ss)
+  | fuel + 1, todo, st, acc, ss =>
+    if overBudget budget ss.nodes then (.budget, ss)
+    else
+      (candidates ops todo).foldl (tryCand ops (search ops budget fuel) todo st acc)
+        (.none, { ss with nodes := ss.nodes + 1 })
 
 inductive Verdict
   | accept
   | reject (why : String)
 deriving DecidableEq, Repr
 
-/-- Decide a recorded history (operations in invocation order): search for a linearisation, accept
-iff it validates. -/
-def decideHist (h : List HOp) (budget : Nat := 400000) : Verdict :=
-  if !sortedByInv h then .reject "history-not-in-invocation-order"
+/-- Every operation was invoked before it returned. -/
+def wellStamped (ops : Array HOp) : Bool := ops.all (fun o => decide (o.inv < o.ret))
+
+/-- Decide a recorded history: search for a linearisation, accept iff it validates. -/
+def decideHist (h : List HOp) (budget : Option Nat := some 400000) : Verdict :=
+  let ops := h.toArray
+  if !wellStamped ops then .reject "operation-returned-before-its-invocation"
   else
-    let ops := h.toArray
-    match (dfs ops budget 0 0 0 seqInit []).run { memo := {}, nodes := 0 } with
-    | (some w, _) => if validate ops w then .accept else .reject "witness-does-not-validate"
-    | (none, s) => if s.nodes > budget then .reject "budget-exhausted" else .reject "not-linearizable"
+    match (search ops budget ops.size (List.range ops.size) seqInit [] { memo := {}, nodes := 0 }).1 with
+    | .found w => if validate ops w then .accept else .reject "witness-does-not-validate"
+    | .none => .reject "not-linearizable"
+    | .budget => .reject "budget-exhausted"
 
 /-! ## line protocol of `drv_c05` -/
 open Hive.Proto
